@@ -191,64 +191,6 @@ Lemma alpha_order_independent_l : forall sel sel', Permutation sel sel' -> order
 Proof. exact sort_str_perm_eq. Qed.
 
 (* ---------- request order ---------- *)
-Lemma block_in : forall cols iter f c, In f iter ->
-  (In c (sort_str (filter (owns f) (select cols iter))) <-> wanted cols [f] c).
-Proof.
-  intros cols iter f c Hf. rewrite sort_str_in, filter_In, select_spec_l. unfold wanted. split.
-  - intros [[Hc _] Ho]. split; [exact Hc|]. exists f. split; [left; reflexivity | apply owns_spec; exact Ho].
-  - intros [Hc [g [[<-|[]] Ho]]]. split; [split; [exact Hc | exists f; split; assumption] | apply owns_spec; exact Ho].
-Qed.
-
-Lemma follows_request_gen : forall cols iter l, NoDup cols -> (forall f, In f l -> In f iter) ->
-  Forall2 (block_of cols) l (map (fun f => sort_str (filter (owns f) (select cols iter))) l).
-Proof.
-  intros cols iter l Hn. induction l as [|f l IH]; intros Hsub; cbn; constructor.
-  - split.
-    + apply sorted_strict; [|apply sort_str_sorted].
-      eapply Permutation_NoDup; [apply Permutation_sym, sort_str_perm|]. apply NoDup_filter, select_nodup, Hn.
-    + intros c. apply block_in. apply Hsub. left. reflexivity.
-  - apply IH. intros g Hg. apply Hsub. right. exact Hg.
-Qed.
-
-Lemma request_order_follows_l : forall cols iter, NoDup cols ->
-  follows_request cols iter (order_request iter (select cols iter)).
-Proof.
-  intros cols iter Hn. unfold follows_request, order_request.
-  exists (map (fun f => sort_str (filter (owns f) (select cols iter))) iter). split.
-  - apply flat_map_concat_map.
-  - apply follows_request_gen; auto.
-Qed.
-
-Lemma follows_request_unique : forall cols req out out',
-  follows_request cols req out -> follows_request cols req out' -> out = out'.
-Proof.
-  intros cols req out out' [bs [-> H]] [bs' [-> H']]. f_equal.
-  revert bs' H'. induction H as [|f b req bs Hb H IH]; intros bs' H'; inversion H' as [|? b' ? bs'' Hb' H'']; subst.
-  - reflexivity.
-  - f_equal; [|apply IH; exact H'']. destruct Hb as [S I]. destruct Hb' as [S' I'].
-    apply strict_sorted_same; try assumption. intros c. rewrite I, I'. reflexivity.
-Qed.
-
-Lemma order_request_elements : forall iter sel c,
-  In c (order_request iter sel) <-> In c sel /\ exists f, In f iter /\ owns f c = true.
-Proof.
-  intros iter sel c. unfold order_request. rewrite in_flat_map. split.
-  - intros [f [Hf Hc]]. apply sort_str_in, filter_In in Hc. destruct Hc as [Hc Ho]. split; [exact Hc | exists f; auto].
-  - intros [Hc [f [Hf Ho]]]. exists f. split; [exact Hf|]. apply sort_str_in, filter_In. auto.
-Qed.
-
-Lemma order_request_sel_perm : forall iter sel sel', Permutation sel sel' -> order_request iter sel = order_request iter sel'.
-Proof.
-  intros iter sel sel' H. unfold order_request. induction iter as [|f t IH]; cbn; [reflexivity|].
-  rewrite IH. f_equal. apply sort_str_perm_eq. unfold select. clear IH.
-  induction H; cbn.
-  - constructor.
-  - destruct (owns f x); [constructor|]; assumption.
-  - destruct (owns f x), (owns f y); try apply Permutation_refl. apply perm_swap.
-  - eapply Permutation_trans; eassumption.
-Qed.
-
-(* request order and duplicates *)
 Lemma NoDup_app_intro : forall (l1 l2 : list string), NoDup l1 -> NoDup l2 -> (forall x, In x l1 -> ~ In x l2) -> NoDup (l1 ++ l2).
 Proof.
   induction l1 as [|a l1 IH]; intros l2 H1 H2 Hd; cbn; [exact H2|].
@@ -257,29 +199,173 @@ Proof.
   - apply IH; try assumption. intros x Hx. apply Hd. right. exact Hx.
 Qed.
 
-Lemma flat_blocks_nodup : forall sel l, NoDup sel -> NoDup l ->
-  (forall f g c, In f l -> In g l -> In c sel -> owns f c = true -> owns g c = true -> f = g) ->
-  NoDup (flat_map (fun f => sort_str (filter (owns f) sel)) l).
+Lemma mem_str_in : forall x l, mem_str x l = true <-> In x l.
 Proof.
-  intros sel l Hs. induction l as [|f l IH]; intros Hl Hov; cbn; [constructor|].
-  inversion Hl as [|? ? Hnf Hl']; subst. apply NoDup_app_intro.
-  - eapply Permutation_NoDup; [apply Permutation_sym, sort_str_perm|]. apply NoDup_filter, Hs.
-  - apply IH; [exact Hl'|]. intros a b c Ha Hb. apply Hov; right; assumption.
-  - intros x Hx Hx'. apply sort_str_in, filter_In in Hx. destruct Hx as [Hxs Hxo].
-    apply in_flat_map in Hx'. destruct Hx' as [g [Hg Hxg]]. apply sort_str_in, filter_In in Hxg.
-    destruct Hxg as [_ Hgo]. assert (f = g) by (apply (Hov f g x); auto; [left; reflexivity | right; exact Hg]).
-    subst g. contradiction.
+  intros x l. unfold mem_str. rewrite existsb_exists. split.
+  - intros [y [Hy E]]. apply String.eqb_eq in E. subst. exact Hy.
+  - intros H. exists x. split; [exact H | apply String.eqb_refl].
 Qed.
 
-Lemma request_order_nodup_l : forall iter cols, NoDup cols -> NoDup iter -> kf_overlap iter cols = false ->
-  NoDup (order_request iter (select cols iter)).
+Lemma extend_new_in : forall block res c, In c (extend_new res block) <-> In c res \/ In c block.
 Proof.
-  intros iter cols Hc Hi Hk. unfold order_request. apply flat_blocks_nodup; [apply select_nodup, Hc | exact Hi |].
-  intros f g c Hf Hg Hcs Hof Hog. destruct (String.eqb f g) eqn:E; [apply String.eqb_eq; exact E|]. exfalso.
-  unfold kf_overlap in Hk. rewrite <- not_true_iff_false in Hk. apply Hk. apply existsb_exists. exists c. split.
-  - apply select_spec_l in Hcs. destruct Hcs as [H _]. exact H.
-  - apply existsb_exists. exists f. split; [exact Hf|]. apply existsb_exists. exists g. split; [exact Hg|].
-    rewrite E, Hof, Hog. reflexivity.
+  induction block as [|b t IH]; intros res c; cbn; [tauto|]. rewrite IH. destruct (mem_str b res) eqn:E.
+  - apply mem_str_in in E. split; [tauto|]. intros [H|[<-|H]]; auto.
+  - rewrite in_app_iff. cbn. tauto.
+Qed.
+
+Lemma extend_new_nodup : forall block res, NoDup res -> NoDup (extend_new res block).
+Proof.
+  induction block as [|b t IH]; intros res H; cbn; [exact H|]. apply IH. destruct (mem_str b res) eqn:E; [exact H|].
+  apply NoDup_app_intro; [exact H | constructor; [intros [] | constructor] |].
+  intros x Hx [<-|[]]. apply mem_str_in in Hx. congruence.
+Qed.
+
+(* on a duplicate-free block the lazily evaluated generator is a plain filter *)
+Lemma extend_new_filter : forall block res, NoDup block ->
+  extend_new res block = res ++ filter (fun c => negb (mem_str c res)) block.
+Proof.
+  induction block as [|b t IH]; intros res Hn; cbn; [rewrite app_nil_r; reflexivity|].
+  inversion Hn as [|? ? Hb Ht]; subst. destruct (mem_str b res) eqn:E; cbn.
+  - apply IH, Ht.
+  - rewrite (IH _ Ht), <- app_assoc. cbn. f_equal. f_equal. apply filter_ext_in. intros c Hc.
+    f_equal. unfold mem_str. rewrite existsb_app. cbn. rewrite orb_false_r.
+    destruct (String.eqb c b) eqn:Ecb; [apply String.eqb_eq in Ecb; subst; contradiction | apply orb_false_r].
+Qed.
+
+Definition ro_step (sel : list string) (r : list string) (f : string) : list string :=
+  extend_new r (sort_str (filter (owns f) sel)).
+
+Lemma order_request_unfold : forall iter sel, order_request iter sel = fold_left (ro_step sel) iter [].
+Proof. reflexivity. Qed.
+
+Lemma ro_fold_elements : forall sel l res c,
+  In c (fold_left (ro_step sel) l res) <-> In c res \/ (In c sel /\ exists f, In f l /\ owns f c = true).
+Proof.
+  induction l as [|f t IH]; intros res c; cbn.
+  - split; [auto|]. intros [H|[_ [f [[] _]]]]. exact H.
+  - rewrite IH. unfold ro_step. rewrite extend_new_in, sort_str_in, filter_In. split.
+    + intros [[H|[H1 H2]]|[H [g [Hg Ho]]]];
+        [left; exact H | right; split; [exact H1 | exists f; auto] | right; split; [exact H | exists g; auto]].
+    + intros [H|[H [g [[<-|Hg] Ho]]]]; [auto | left; right; auto | right; split; [exact H | exists g; auto]].
+Qed.
+
+Lemma order_request_elements : forall iter sel c,
+  In c (order_request iter sel) <-> In c sel /\ exists f, In f iter /\ owns f c = true.
+Proof.
+  intros iter sel c. rewrite order_request_unfold, ro_fold_elements. split; [intros [[]|H]; exact H | auto].
+Qed.
+
+(* no column is returned twice, for all inputs *)
+Lemma request_order_nodup_l : forall iter sel, NoDup (order_request iter sel).
+Proof.
+  intros iter sel. rewrite order_request_unfold.
+  assert (G : forall l res, NoDup res -> NoDup (fold_left (ro_step sel) l res)).
+  { induction l as [|f t IH]; intros res H; cbn; [exact H | apply IH, extend_new_nodup, H]. }
+  apply G. constructor.
+Qed.
+
+Lemma filter_perm : forall (p : string -> bool) l l', Permutation l l' -> Permutation (filter p l) (filter p l').
+Proof.
+  intros p l l' H. induction H; cbn.
+  - constructor.
+  - destruct (p x); [constructor|]; assumption.
+  - destruct (p x), (p y); try apply Permutation_refl. apply perm_swap.
+  - eapply Permutation_trans; eassumption.
+Qed.
+
+Lemma order_request_sel_perm : forall iter sel sel', Permutation sel sel' -> order_request iter sel = order_request iter sel'.
+Proof.
+  intros iter sel sel' H. rewrite !order_request_unfold. generalize (@nil string) as res.
+  induction iter as [|f t IH]; intros res; cbn; [reflexivity|]. rewrite IH. f_equal. unfold ro_step. f_equal.
+  apply sort_str_perm_eq, filter_perm, H.
+Qed.
+
+Lemma strongly_sorted_filter : forall (R : string -> string -> Prop) p l,
+  StronglySorted R l -> StronglySorted R (filter p l).
+Proof.
+  intros R p l H. induction H as [|a l Hl IH Ha]; cbn; [constructor|]. destruct (p a); [|exact IH].
+  constructor; [exact IH|]. rewrite Forall_forall in *. intros x Hx. apply filter_In in Hx. apply Ha, Hx.
+Qed.
+
+Lemma block_in : forall cols iter f c, In f iter ->
+  (In c (sort_str (filter (owns f) (select cols iter))) <-> wanted cols [f] c).
+Proof.
+  intros cols iter f c Hf. rewrite sort_str_in, filter_In, select_spec_l. unfold wanted. split.
+  - intros [[Hc _] Ho]. split; [exact Hc|]. exists f. split; [left; reflexivity | apply owns_spec; exact Ho].
+  - intros [Hc [g [[<-|[]] Ho]]]. split; [split; [exact Hc | exists f; split; assumption] | apply owns_spec; exact Ho].
+Qed.
+
+Lemma follows_gen : forall cols iter, NoDup cols ->
+  forall l earlier res, (forall f, In f l -> In f iter) ->
+  (forall c, In c res <-> In c (select cols iter) /\ exists g, In g earlier /\ owns g c = true) ->
+  exists out, fold_left (ro_step (select cols iter)) l res = res ++ out /\ follows_from cols earlier l out.
+Proof.
+  intros cols iter Hn. set (sel := select cols iter).
+  induction l as [|f t IH]; intros earlier res Hsub Hres; cbn.
+  - exists []. split; [rewrite app_nil_r; reflexivity | constructor].
+  - set (block := sort_str (filter (owns f) sel)).
+    assert (Hnb : NoDup block).
+    { eapply Permutation_NoDup; [apply Permutation_sym, sort_str_perm|]. apply NoDup_filter, select_nodup, Hn. }
+    assert (Hf : In f iter) by (apply Hsub; left; reflexivity).
+    set (b := filter (fun c => negb (mem_str c res)) block).
+    assert (Estep : ro_step sel res f = res ++ b) by (unfold ro_step; fold block; apply extend_new_filter, Hnb).
+    assert (Hb : forall c, In c b <-> In c block /\ ~ In c res).
+    { intros c. unfold b. rewrite filter_In, negb_true_iff, <- not_true_iff_false, mem_str_in. tauto. }
+    assert (Hblock : block_of cols earlier f b).
+    { split.
+      - unfold b. apply strongly_sorted_filter. apply sorted_strict; [exact Hnb | apply sort_str_sorted].
+      - intros c. rewrite Hb. unfold block, sel. rewrite (block_in cols iter f c Hf), Hres. split.
+        + intros [Hw Hnot]. split; [exact Hw|]. intros [g [Hg Ho]]. apply Hnot. split.
+          * apply select_spec_l. destruct Hw as [Hc [h [[<-|[]] Hh]]]. split; [exact Hc | exists f; auto].
+          * exists g. split; [exact Hg | apply owns_spec; exact Ho].
+        + intros [Hw Hnot]. split; [exact Hw|]. intros [_ [g [Hg Ho]]]. apply Hnot. exists g.
+          split; [exact Hg | apply owns_spec; exact Ho]. }
+    destruct (IH (earlier ++ [f]) (res ++ b)) as [out [Eo Fo]].
+    + intros g Hg. apply Hsub. right. exact Hg.
+    + intros c. rewrite in_app_iff, Hb, Hres. unfold block. rewrite sort_str_in, filter_In. split.
+      * intros [[Hs [g [Hg Ho]]]|[[Hs Ho] _]].
+        -- split; [exact Hs|]. exists g. split; [apply in_or_app; left; exact Hg | exact Ho].
+        -- split; [exact Hs|]. exists f. split; [apply in_or_app; right; left; reflexivity | exact Ho].
+      * intros [Hs [g [Hg Ho]]]. apply in_app_or in Hg. destruct Hg as [Hg|[<-|[]]].
+        -- left. split; [exact Hs | exists g; auto].
+        -- destruct (mem_str c res) eqn:Em.
+           ++ apply mem_str_in, Hres in Em. left. exact Em.
+           ++ right. split; [split; assumption|]. intros Hin. apply Hres in Hin. apply mem_str_in in Hin. congruence.
+    + exists (b ++ out). split; [rewrite Estep, Eo, app_assoc; reflexivity | constructor; assumption].
+Qed.
+
+Lemma request_order_follows_l : forall cols iter, NoDup cols ->
+  follows_request cols iter (order_request iter (select cols iter)).
+Proof.
+  intros cols iter Hn. unfold follows_request. rewrite order_request_unfold.
+  destruct (follows_gen cols iter Hn iter [] []) as [out [E F]].
+  - auto.
+  - intros c. split; [intros [] | intros [_ [g [[] _]]]].
+  - rewrite E. exact F.
+Qed.
+
+Lemma follows_from_unique : forall cols earlier req out out',
+  follows_from cols earlier req out -> follows_from cols earlier req out' -> out = out'.
+Proof.
+  intros cols earlier req out out' H. revert out'.
+  induction H as [|earlier f req b out Hb H IH]; intros out' H'; inversion H' as [|? ? ? b' out'' Hb' H'']; subst.
+  - reflexivity.
+  - f_equal; [|apply IH; exact H'']. destruct Hb as [S I]. destruct Hb' as [S' I'].
+    apply strict_sorted_same; try assumption. intros c. rewrite I, I'. reflexivity.
+Qed.
+
+Lemma follows_request_unique : forall cols req out out',
+  follows_request cols req out -> follows_request cols req out' -> out = out'.
+Proof. intros cols req out out'. apply follows_from_unique. Qed.
+
+(* when no column is owned by two requested names, the blocks are simply each name's columns *)
+Lemma follows_from_blocks_in : forall cols earlier req out, follows_from cols earlier req out ->
+  forall c, In c out -> exists f, In f req /\ wanted cols [f] c.
+Proof.
+  intros cols earlier req out H. induction H as [|earlier f req b out Hb H IH]; intros c Hc; [destruct Hc|].
+  apply in_app_or in Hc. destruct Hc as [Hc|Hc].
+  - exists f. split; [left; reflexivity|]. apply Hb in Hc. tauto.
+  - destruct (IH _ Hc) as [g [Hg Hw]]. exists g. split; [right; exact Hg | exact Hw].
 Qed.
 
 (* ---------- identify ---------- *)
@@ -342,15 +428,6 @@ Proof.
   exists ["a"; "b"], ["b"; "a"], ["a"; "b"]. split; [apply perm_swap|]. split; [exact nodup_ab|]. split; [exact nodup_ab|].
   intros H. pose proof (request_order_follows_l ["a"; "b"] ["a"; "b"] nodup_ab) as H0.
   pose proof (follows_request_unique _ _ _ _ H H0) as E. vm_compute in E. discriminate E.
-Qed.
-
-Lemma request_order_dup_refuted_l : exists iter cols,
-  NoDup iter /\ NoDup cols /\ kf_overlap iter cols = true /\ ~ NoDup (elements (identify iter cols ORequest)).
-Proof.
-  exists ["m"; "m~1"], ["m~0"; "m~1"]. repeat split.
-  - constructor; [intros [H|[]]; discriminate | constructor; [intros [] | constructor]].
-  - constructor; [intros [H|[]]; discriminate | constructor; [intros [] | constructor]].
-  - vm_compute. intros H. inversion H as [|? ? _ Ht]. inversion Ht as [|? ? Hni _]. apply Hni. left. reflexivity.
 Qed.
 
 (* ---------- sub-column names ---------- *)
